@@ -49,6 +49,7 @@ ASSUMPTIONS = ['labels are compared with Python == (1 == 1.0 == True); NaN label
 TRUSTED = ['tools/sfv/props/c09.py:generate -- AST pattern extractor for the sharing decision tables (fails closed on any other shape)']
 EXHAUSTIVE = {'quick': False, 'thorough': False}
 TRANSLATED = ['resolve_dtype']
+SHARD_SIZE = 200          # histories are long terms: ~350 MB per coqc at this size
 
 F_IDX_EXT = 'C09-indexgo-extend-partial'
 F_FRM_EXT = 'C09-framego-extend-partial'
